@@ -183,14 +183,14 @@ func utxoChild(args []string) {
 		sid := split.TxID()
 		txs := make([]*refchain.Tx, perGroup)
 		for i := range txs {
-			t := &refchain.Tx{Version: 1, In: []refchain.TxIn{{Prev: refchain.OutPoint{Hash: sid, Idx: uint32(i)}, Sequence: 0xffffffff}}, Out: []refchain.TxOut{{Value: per - 1, Script: bigTrue()}}}
+			t := &refchain.Tx{Version: 1, In: []refchain.TxIn{{Prev: refchain.OutPoint{Hash: sid, Idx: uint32(i)}, Sequence: 0xffffffff}}, Out: []refchain.TxOut{{Value: per - 2, Script: bigTrue()}, {Value: 1, Script: []byte{0x51}}}}
 			txs[i] = t
 		}
 		if !offer(g.Build(chainsim.BlockSpec{Parent: s.Ref.Tip, Txs: txs, Fees: uint64(perGroup)}), "records") {
 			return
 		}
 		for _, t := range txs {
-			recs = append(recs, rec{refchain.OutPoint{Hash: t.TxID(), Idx: 0}, refchain.Coin{Value: per - 1, Script: t.Out[0].Script, Height: s.Ref.Tip.Height}})
+			recs = append(recs, rec{refchain.OutPoint{Hash: t.TxID(), Idx: 0}, refchain.Coin{Value: per - 2, Script: t.Out[0].Script, Height: s.Ref.Tip.Height}})
 		}
 	}
 	run.Count("records_created", int64(len(recs)))
@@ -202,10 +202,22 @@ func utxoChild(args []string) {
 	nSpend := len(recs) * 92 / 100
 	spendList := perm[:nSpend]
 	keep := perm[nSpend:]
+	// the survivors lose their second, one-satoshi output in the first of these blocks: their records are re-serialized
+	// (a new allocation, the old one freed) in the very pages the defragmenter is going to evacuate
+	partial := &refchain.Tx{Version: 1}
+	for _, i := range keep {
+		partial.In = append(partial.In, refchain.TxIn{Prev: refchain.OutPoint{Hash: recs[i].op.Hash, Idx: 1}, Sequence: 0xffffffff})
+	}
+	partial.Out = []refchain.TxOut{g.OutTrue(uint64(len(keep)) - 100)}
+	run.Count("survivor_records_partially_spent_before_the_defragmentation", int64(len(keep)))
 	for off := 0; off < len(spendList); {
 		var txs []*refchain.Tx
 		var fees uint64
 		weight := 0
+		if partial != nil {
+			txs, fees, weight = append(txs, partial), 100, 4*(len(partial.In)*41+30)
+			partial = nil
+		}
 		for off < len(spendList) && weight < 3600000 {
 			k := 400 + r.Intn(300)
 			if off+k > len(spendList) {
@@ -214,13 +226,14 @@ func utxoChild(args []string) {
 			t := &refchain.Tx{Version: 1}
 			var in uint64
 			for _, i := range spendList[off : off+k] {
-				t.In = append(t.In, refchain.TxIn{Prev: recs[i].op, Sequence: 0xffffffff})
-				in += recs[i].c.Value
+				t.In = append(t.In, refchain.TxIn{Prev: recs[i].op, Sequence: 0xffffffff},
+					refchain.TxIn{Prev: refchain.OutPoint{Hash: recs[i].op.Hash, Idx: 1}, Sequence: 0xffffffff}) // both outputs: the record goes
+				in += recs[i].c.Value + 1
 			}
 			t.Out = []refchain.TxOut{g.OutTrue(in - 100)}
 			fees += 100
 			txs = append(txs, t)
-			weight += 4 * (k*41 + 30)
+			weight += 4 * (2*k*41 + 30)
 			off += k
 		}
 		if !offer(g.Build(chainsim.BlockSpec{Parent: s.Ref.Tip, Txs: txs, Fees: fees}), "mass-spend") {
